@@ -15,6 +15,11 @@ def gen(rng, tier):
             bursts = [rng.randint(b // 2, b) for _ in range(threads)]
         else:
             bursts = [rng.choice([1, 1, 2, rng.randint(200, 600 if tier == "quick" else 2000)]) for _ in range(threads)]
+        rounds = rng.random() < 0.15
+        if rounds:
+            # fresh-stream rounds (mode 4): small bursts from 4-8 threads whose first requests collide
+            threads = rng.choice([4, 6, 8, 8])
+            bursts = [rng.randint(1, 5) for _ in range(threads)]
         n = sum(bursts)
         window = rng.choice([1, 1, 2, 3, 5])
         target = rng.choice([1, 2, max(1, n // 2), max(1, n - 1), n, n + 1, 2 * n, rng.randint(1, n + 5)])
@@ -23,7 +28,7 @@ def gen(rng, tier):
         size = rng.choice([1, 7, 65537])
         if rng.random() < 0.02:
             rate, window = rng.choice([(0, 1), (1, 0), (65536, 65536)])
-        yield (f"{rate} {window} {slip} {size} {rng.choice(KINDS)} {rng.choice([0, 1])} {rng.choice([0, 0, 1, 2, 3])} "
+        yield (f"{rate} {window} {slip} {size} {rng.choice(KINDS)} {rng.choice([0, 1])} {4 if rounds else rng.choice([0, 0, 1, 2, 3])} "
                f"{rng.randrange(1 << 30)} {','.join(map(str, bursts))}")
 
 
@@ -60,7 +65,9 @@ CHECK = {
         "rule": ("stress runs on the real code: one Server, 2-16 OS threads released together by a barrier, each handling a burst of "
                  "1..600 (thorough: ..2000) identical requests of one stream from different addresses of one /24 (back to back / yield "
                  "after every request / pseudo-random spins / pseudo-random yields), rate x window chosen around the total n (1, 2, n/2, "
-                 "n-1, n, n+1, 2n, random), slip 0/1/2/3, table sizes 1/7/65537; a run counts only if it took < 0.8 s; the total sent must "
+                 "n-1, n, n+1, 2n, random), slip 0/1/2/3, table sizes 1/7/65537; a run counts only if it took < 0.8 s; 15% of the cases are FRESH-STREAM ROUNDS (the same small burst of 4-8 "
+                 "threads repeated 60 times on one Server, each round from a /24 never seen before, threads released by a spinning barrier so "
+                 "that the requests that CREATE the bucket collide; every round must give the same counts); the total sent must "
                  "equal min(n, rate x window); the model column runs the extracted interleaving semantics under a seeded random "
                  "schedule; non-trivial = the limit was reached (some sent, some limited); distinct = distinct case line"),
     }],
